@@ -14,7 +14,8 @@ import WcModel.Proofs.Regex
        with the declarative semantics, so no `re.error`-like failure exists on the model
        side once `toRe` succeeds.
   Full statement `∀ p, (parse p).toRe.isSome` (false on the pinned tree — D9, repaired by a
-  `fix:` commit): not yet proved in general; tied by K1 + re.compile on every sampled string.
+  `fix:` commit): proved for every string and configuration in `Properties/C10wf.lean`
+  (`every_string_compiles`); bracket classes are well formed: `Properties/C10cls.lean`.
 -/
 namespace WcModel.C10
 
